@@ -6,6 +6,16 @@
 //! log must equal the single-threaded one; afterwards the drop ledger must be
 //! balanced and alarm-free. The TSan flavour of the same workload reports data
 //! races in the (instrumented) host side.
+//!
+//! The threads call through every kind of callable the API makes from a handle: the
+//! shared `TypedFunc` (`call`), a clone each thread owns, or the `impl Fn` of
+//! `into_func()` each thread makes from its clone; in the last two kinds the main thread
+//! drops the package and the original handle while the calls are running.
+//!
+//! Scenario `shared-runtime` (every 8th case): N threads compile against ONE `Runtime`
+//! (and clones of it), call, clone, convert and drop what they made, at the same time;
+//! the state captured by the runtime's registered closures must be released exactly once,
+//! after the runtime and everything compiled from it is gone.
 
 use std::sync::Arc;
 use std::sync::atomic::{AtomicBool, AtomicU64, Ordering};
@@ -18,6 +28,9 @@ use crate::rg::ast::Program;
 use crate::rg::generate::{Cfg, Gen};
 use crate::rg::print;
 use crate::rng::Rng;
+use crate::exec::MainFn;
+use crate::host::Trk;
+use crate::val::{IntTy, V};
 use crate::work::{Args, CaseOut, Family, catch, hash_str, panic_sig};
 use crate::{conv, exec, host};
 
@@ -49,12 +62,142 @@ fn gen_program(rng: &mut Rng) -> (Program, Vec<String>, String, &'static str) {
 }
 
 /// One execution, rendered as text (values may hold `Rc`s and cannot cross threads).
-fn run_once(f: &exec::MainFn, input: &[u64]) -> (String, Vec<String>) {
+fn run_once(f: &dyn Fn() -> V, input: &[u64]) -> (String, Vec<String>) {
     host::set_input(input);
     host::log_clear();
-    let v = f.call();
+    let v = f();
     let log: Vec<String> = host::log_take().iter().map(|e| e.show()).collect();
     (v.show(), log)
+}
+
+macro_rules! each_variant {
+    ($f:expr, $x:ident => $e:expr) => {
+        match $f {
+            MainFn::Unit($x) => MainFn::Unit($e),
+            MainFn::Bool($x) => MainFn::Bool($e),
+            MainFn::Char($x) => MainFn::Char($e),
+            MainFn::U8($x) => MainFn::U8($e),
+            MainFn::U16($x) => MainFn::U16($e),
+            MainFn::U32($x) => MainFn::U32($e),
+            MainFn::U64($x) => MainFn::U64($e),
+            MainFn::I8($x) => MainFn::I8($e),
+            MainFn::I16($x) => MainFn::I16($e),
+            MainFn::I32($x) => MainFn::I32($e),
+            MainFn::I64($x) => MainFn::I64($e),
+            MainFn::F32($x) => MainFn::F32($e),
+            MainFn::F64($x) => MainFn::F64($e),
+            MainFn::Str($x) => MainFn::Str($e),
+            MainFn::OptI64($x) => MainFn::OptI64($e),
+            MainFn::OptTrk($x) => MainFn::OptTrk($e),
+            MainFn::TrkV($x) => MainFn::TrkV($e),
+            MainFn::VerdI64($x) => MainFn::VerdI64($e),
+        }
+    };
+}
+
+/// `TypedFunc::clone` of whatever signature the handle has.
+fn clone_main(f: &MainFn) -> MainFn {
+    each_variant!(f, x => x.clone())
+}
+
+/// Consumes the handle with `TypedFunc::into_func()`; the result is called through the
+/// returned `impl Fn` only. The conversion of the result is the one of `MainFn::call`.
+fn into_caller(f: MainFn) -> Box<dyn Fn() -> V> {
+    use crate::alloc::exempt;
+    macro_rules! int {
+        ($f:ident, $t:expr) => {{
+            let g = $f.into_func();
+            Box::new(move || V::Int($t, g() as i128))
+        }};
+    }
+    match f {
+        MainFn::Unit(f) => {
+            let g = f.into_func();
+            Box::new(move || {
+                g();
+                V::Unit
+            })
+        }
+        MainFn::Bool(f) => {
+            let g = f.into_func();
+            Box::new(move || V::Bool(g()))
+        }
+        MainFn::Char(f) => {
+            let g = f.into_func();
+            Box::new(move || V::Char(g()))
+        }
+        MainFn::U8(f) => int!(f, IntTy::U8),
+        MainFn::U16(f) => int!(f, IntTy::U16),
+        MainFn::U32(f) => int!(f, IntTy::U32),
+        MainFn::U64(f) => int!(f, IntTy::U64),
+        MainFn::I8(f) => int!(f, IntTy::I8),
+        MainFn::I16(f) => int!(f, IntTy::I16),
+        MainFn::I32(f) => int!(f, IntTy::I32),
+        MainFn::I64(f) => int!(f, IntTy::I64),
+        MainFn::F32(f) => {
+            let g = f.into_func();
+            Box::new(move || V::F32(g()))
+        }
+        MainFn::F64(f) => {
+            let g = f.into_func();
+            Box::new(move || V::F64(g()))
+        }
+        MainFn::Str(f) => {
+            let g = f.into_func();
+            Box::new(move || {
+                let r = g();
+                exempt(move || V::Str(r.to_string()))
+            })
+        }
+        MainFn::OptI64(f) => {
+            let g = f.into_func();
+            Box::new(move || {
+                let r = g();
+                exempt(move || V::Opt(r.map(|x| Box::new(V::Int(IntTy::I64, x as i128)))))
+            })
+        }
+        MainFn::OptTrk(f) => {
+            let g = f.into_func();
+            Box::new(move || {
+                let r = g();
+                exempt(move || {
+                    V::Opt(r.map(|x| {
+                        x.check("returned-to-rust");
+                        Box::new(V::Trk(x.tag))
+                    }))
+                })
+            })
+        }
+        MainFn::TrkV(f) => {
+            let g = f.into_func();
+            Box::new(move || {
+                let x = g();
+                x.check("returned-to-rust");
+                V::Trk(x.tag)
+            })
+        }
+        MainFn::VerdI64(f) => {
+            let g = f.into_func();
+            Box::new(move || {
+                let r = g();
+                exempt(move || match r {
+                    roto::Verdict::Accept(x) => V::Enum(0, "Accept".into(), vec![V::Int(IntTy::I64, x as i128)]),
+                    roto::Verdict::Reject(x) => V::Enum(1, "Reject".into(), vec![V::Int(IntTy::I64, x as i128)]),
+                })
+            })
+        }
+    }
+}
+
+/// How the worker threads of a case reach the compiled function.
+#[derive(Clone, Copy, PartialEq, Debug)]
+enum Via {
+    /// all threads call one `TypedFunc` by reference
+    SharedHandle,
+    /// every thread owns a clone of the handle
+    OwnClone,
+    /// every thread turns its clone into an `into_func()` closure and calls that
+    IntoFunc,
 }
 
 // ---------------------------------------------------------------------------
@@ -236,6 +379,356 @@ impl Concurrent {
     }
 }
 
+
+// ---------------------------------------------------------------------------
+// shared runtime: threads compile against one `Runtime` and drop what they compiled,
+// all at the same time; the registered closures' captured state is the observer
+// ---------------------------------------------------------------------------
+
+const SR_TAG: i64 = 40_000;
+
+/// Every closure this returns has the same Rust type; they differ in the tracked value
+/// they capture.
+fn sr_closure(i: usize, cap: Arc<Trk>) -> roto::Function {
+    roto::Function::new(
+        format!("c{i}"),
+        "a registered closure that captures a tracked value",
+        vec!["x"],
+        move |x: i64| -> i64 {
+            cap.check("shared-runtime closure called");
+            x.wrapping_mul(3).wrapping_add(cap.tag)
+        },
+        roto::location!(),
+    )
+    .expect("closure item")
+}
+
+/// what `c{i}(x)` returns
+fn sr_model(i: usize, x: i64) -> i64 {
+    x.wrapping_mul(3).wrapping_add(SR_TAG + i as i64)
+}
+
+/// Wait (bounded, spinning first) until `target` arrivals have been counted.
+fn rendezvous(arrived: &AtomicU64, target: u64) {
+    arrived.fetch_add(1, Ordering::SeqCst);
+    let mut spins = 0u64;
+    while arrived.load(Ordering::SeqCst) < target && spins < 3_000_000 {
+        if spins < 30_000 {
+            std::hint::spin_loop();
+        } else {
+            std::thread::yield_now();
+        }
+        spins += 1;
+    }
+}
+
+type SrFn = roto::TypedFunc<NoCtx, fn(i64) -> i64>;
+
+/// Something a thread of the scenario owns that refers to the registered closures.
+enum SrObj {
+    Pkg(roto::Package<NoCtx>),
+    Handle(SrFn),
+    RtClone(Runtime<NoCtx>),
+}
+
+#[derive(Default)]
+struct SrStats {
+    compiles: AtomicU64,
+    calls: AtomicU64,
+    packages_dropped: AtomicU64,
+    handles_dropped: AtomicU64,
+    closures_dropped: AtomicU64,
+    runtime_clones: AtomicU64,
+    handed_over: AtomicU64,
+}
+
+impl Concurrent {
+    fn shared_runtime(&mut self, rng: &mut Rng, args: &Args) -> CaseOut {
+        let mut out = CaseOut::default();
+        out.tags.push("profile:shared-runtime".into());
+        let n_closures = *rng.pick(&[3usize, 12, 48, 48]);
+        let n_threads = *rng.pick(&[2usize, 4, 8, 8, 16]);
+        // about the same number of compilations whatever the number of threads
+        let rounds: usize = (if cfg!(debug_assertions) { 40 } else if args.thorough() { 250 } else { 120 }) * (8 / n_threads).max(1);
+        // how the threads line up: before every compile and drop phase, or only now and then
+        let lockstep = rng.chance(2, 3);
+        let case_seed = rng.next();
+        out.hash = hash_str("shared-runtime") ^ case_seed;
+        out.tags.push(format!("threads:{n_threads}"));
+        out.tags.push(format!("shared-runtime:closures:{n_closures}"));
+        out.tags.push(format!("shared-runtime:lockstep:{lockstep}"));
+        out.sample = Some(
+            J::obj()
+                .set("profile", "shared-runtime")
+                .set("threads", n_threads as u64)
+                .set("closures", n_closures as u64)
+                .set("rounds", rounds as u64)
+                .set("source", "fn main(x: i64) -> i64 { c<i>(c<j>(... x ...)) } for a random selection of the closures c0..c<n>, per thread and round"),
+        );
+        host::ledger_reset();
+        let mut rt = Runtime::new();
+        for i in 0..n_closures {
+            rt.add(sr_closure(i, Arc::new(Trk::new(SR_TAG + i as i64)))).expect("closure registers");
+        }
+        let stats = SrStats::default();
+        let mism: std::sync::Mutex<Vec<(String, String)>> = std::sync::Mutex::new(Vec::new());
+        let arrived_compile = AtomicU64::new(0);
+        let arrived_drop = AtomicU64::new(0);
+        let inbox: Vec<std::sync::Mutex<Vec<SrObj>>> = (0..n_threads).map(|_| std::sync::Mutex::new(Vec::new())).collect();
+        let start = std::sync::Barrier::new(n_threads);
+        let scope_result = catch(|| {
+            std::thread::scope(|s| {
+                for t in 0..n_threads {
+                    let (rt, stats, mism, arrived_compile, arrived_drop, inbox, start) = (&rt, &stats, &mism, &arrived_compile, &arrived_drop, &inbox, &start);
+                    let seed = case_seed ^ (t as u64).wrapping_mul(0x9E37_79B9_7F4A_7C15);
+                    s.spawn(move || {
+                        let mut r = Rng::new(seed);
+                        let report = |sig: &str, msg: String| mism.lock().unwrap_or_else(|e| e.into_inner()).push((sig.to_string(), msg));
+                        start.wait();
+                        // meeting points passed so far (the same on every thread)
+                        let mut meetings = 0u64;
+                        for round in 0..rounds {
+                            let sync = lockstep || round % 4 == 0;
+                            meetings += sync as u64;
+                            // a selection of the closures, in some order
+                            let mut sel: Vec<usize> = (0..n_closures).collect();
+                            r.shuffle(&mut sel);
+                            let n_sel = match r.below(4) {
+                                0 => 1,
+                                1 => 1 + r.usize(n_closures.min(4)),
+                                _ => n_closures,
+                            };
+                            sel.truncate(n_sel);
+                            let mut body = "x".to_string();
+                            let x = r.range(-1000, 1000);
+                            let mut expected = x;
+                            for i in sel.iter().rev() {
+                                body = format!("c{i}({body})");
+                            }
+                            // innermost call first
+                            for i in sel.iter().rev() {
+                                expected = sr_model(*i, expected);
+                            }
+                            let src = format!("fn main(x: i64) -> i64 {{\n    {body}\n}}\n");
+                            let mut mine: Vec<SrObj> = Vec::new();
+                            // now and then the thread works on its own clone of the runtime
+                            let own_rt = r.chance(1, 5).then(|| rt.clone());
+                            if own_rt.is_some() {
+                                stats.runtime_clones.fetch_add(1, Ordering::Relaxed);
+                            }
+                            if sync {
+                                rendezvous(arrived_compile, meetings * n_threads as u64);
+                            }
+                            let compiled = catch(|| exec::compile(&src, own_rt.as_ref().unwrap_or(rt)));
+                            if let Some(c) = own_rt {
+                                mine.push(SrObj::RtClone(c));
+                            }
+                            let mut pkg = match compiled {
+                                Ok(Ok(p)) => p,
+                                Ok(Err(e)) => {
+                                    report("concurrent:shared-runtime:script-rejected", format!("thread {t} round {round}: {}", e.lines().next().unwrap_or("")));
+                                    if sync {
+                                        // keep the count of the meeting point this round skips
+                                        arrived_drop.fetch_add(1, Ordering::SeqCst);
+                                    }
+                                    continue;
+                                }
+                                Err(p) => {
+                                    report(&format!("concurrent:shared-runtime:compile-{}", panic_sig(&p)), format!("thread {t} round {round}: {p}"));
+                                    if sync {
+                                        // keep the count of the meeting point this round skips
+                                        arrived_drop.fetch_add(1, Ordering::SeqCst);
+                                    }
+                                    continue;
+                                }
+                            };
+                            stats.compiles.fetch_add(1, Ordering::Relaxed);
+                            let h = match pkg.get_function::<fn(i64) -> i64>("main") {
+                                Ok(h) => h,
+                                Err(e) => {
+                                    report("concurrent:shared-runtime:no-function", format!("thread {t} round {round}: {e}"));
+                                    if sync {
+                                        // keep the count of the meeting point this round skips
+                                        arrived_drop.fetch_add(1, Ordering::SeqCst);
+                                    }
+                                    continue;
+                                }
+                            };
+                            let mut closure: Option<Box<dyn Fn(i64) -> i64>> = None;
+                            let check = |what: &str, got: i64| {
+                                stats.calls.fetch_add(1, Ordering::Relaxed);
+                                if got != expected {
+                                    report(
+                                        "concurrent:shared-runtime:result-differs",
+                                        format!("thread {t} round {round}: {what} of `{body}` with x = {x} returned {got}, single-threaded {expected}"),
+                                    );
+                                }
+                            };
+                            check("handle", h.call(x));
+                            match r.below(4) {
+                                0 => {}
+                                1 => {
+                                    let c = h.clone();
+                                    check("clone", c.call(x));
+                                    mine.push(SrObj::Handle(c));
+                                }
+                                2 => {
+                                    let c = h.clone().into_func();
+                                    check("into_func closure", c(x));
+                                    closure = Some(Box::new(c));
+                                }
+                                _ => {
+                                    let c = h.clone();
+                                    let c2 = c.clone().into_func();
+                                    check("into_func closure", c2(x));
+                                    closure = Some(Box::new(c2));
+                                    mine.push(SrObj::Handle(c));
+                                }
+                            }
+                            mine.push(SrObj::Handle(h));
+                            mine.push(SrObj::Pkg(pkg));
+                            r.shuffle(&mut mine);
+                            if sync {
+                                rendezvous(arrived_drop, meetings * n_threads as u64);
+                            }
+                            // what other threads handed over in earlier rounds goes now, too
+                            let mut theirs = std::mem::take(&mut *inbox[t].lock().unwrap_or_else(|e| e.into_inner()));
+                            mine.append(&mut theirs);
+                            let hand_over = r.chance(1, 4);
+                            let mut keep: Vec<SrObj> = Vec::new();
+                            for o in mine {
+                                match r.below(8) {
+                                    0 => std::thread::yield_now(),
+                                    1 => {
+                                        for _ in 0..r.below(100) {
+                                            std::hint::spin_loop();
+                                        }
+                                    }
+                                    _ => {}
+                                }
+                                if hand_over && r.bool() {
+                                    keep.push(o);
+                                    continue;
+                                }
+                                match &o {
+                                    SrObj::Pkg(_) => stats.packages_dropped.fetch_add(1, Ordering::Relaxed),
+                                    SrObj::Handle(_) => stats.handles_dropped.fetch_add(1, Ordering::Relaxed),
+                                    SrObj::RtClone(_) => 0,
+                                };
+                                drop(o);
+                            }
+                            if let Some(c) = closure {
+                                // the closure may be the last owner of the round's module
+                                if r.bool() {
+                                    check("into_func closure (after the package was dropped)", c(x));
+                                }
+                                stats.closures_dropped.fetch_add(1, Ordering::Relaxed);
+                                drop(c);
+                            }
+                            if !keep.is_empty() {
+                                stats.handed_over.fetch_add(keep.len() as u64, Ordering::Relaxed);
+                                inbox[(t + 1) % n_threads].lock().unwrap_or_else(|e| e.into_inner()).append(&mut keep);
+                            }
+                        }
+                    });
+                }
+            })
+        });
+        if let Err(p) = scope_result {
+            out.viol("concurrent:thread-panicked", format!("a thread of the shared-runtime scenario panicked: {p}"), J::Null);
+        }
+        // leftovers that were handed over in the last rounds
+        for b in &inbox {
+            b.lock().unwrap_or_else(|e| e.into_inner()).clear();
+        }
+        drop(inbox);
+        let load = |a: &AtomicU64| a.load(Ordering::Relaxed);
+        out.evals = load(&stats.calls);
+        out.events = load(&stats.compiles) + load(&stats.packages_dropped) + load(&stats.handles_dropped) + load(&stats.closures_dropped);
+        out.nontrivial = load(&stats.compiles) > 0;
+        out.count("concurrent_calls", load(&stats.calls));
+        out.count("shared_runtime_compiles", load(&stats.compiles));
+        out.count("shared_runtime_packages_dropped_concurrently", load(&stats.packages_dropped));
+        out.count("shared_runtime_handles_dropped_concurrently", load(&stats.handles_dropped));
+        out.count("shared_runtime_into_func_closures_dropped", load(&stats.closures_dropped));
+        out.count("shared_runtime_runtime_clones", load(&stats.runtime_clones));
+        out.count("shared_runtime_objects_dropped_on_another_thread", load(&stats.handed_over));
+        if load(&stats.handed_over) > 0 {
+            out.tags.push("shared-runtime:dropped-on-another-thread".into());
+        }
+        if load(&stats.runtime_clones) > 0 {
+            out.tags.push("shared-runtime:runtime-cloned-concurrently".into());
+        }
+        if load(&stats.closures_dropped) > 0 {
+            out.tags.push("shared-runtime:into_func-closures".into());
+        }
+        let ms = std::mem::take(&mut *mism.lock().unwrap_or_else(|e| e.into_inner()));
+        if let Some((sig, msg)) = ms.first() {
+            out.viol(sig.clone(), msg.clone(), J::obj().set("threads", n_threads as u64).set("closures", n_closures as u64).set("count", ms.len() as u64));
+        }
+        // Everything compiled is gone, the runtime is alive: it owns every closure, each
+        // captured value is live and none was touched after its release.
+        let detail = |rep: &host::LedgerReport| {
+            J::obj()
+                .set("threads", n_threads as u64)
+                .set("closures", n_closures as u64)
+                .set("compiles", load(&stats.compiles))
+                .set("created", rep.created)
+                .set("drops", rep.drops)
+                .set("live", rep.live.len() as u64)
+        };
+        let rep = host::ledger_report();
+        let mut expected_live: Vec<i64> = (0..n_closures).map(|i| SR_TAG + i as i64).collect();
+        let mut live: Vec<i64> = rep.live.iter().map(|x| x.1).collect();
+        live.sort();
+        expected_live.sort();
+        if let Some(a) = rep.alarms.first() {
+            out.viol(
+                format!("concurrent:shared-runtime:ledger-{}", a.kind),
+                format!("{} {} ({} alarms) while {n_threads} threads compiled against and dropped packages of one runtime", a.kind, a.info, rep.alarms.len()),
+                detail(&rep),
+            );
+            // the runtime may refer to released state: it is not torn down
+            std::mem::forget(rt);
+            return out;
+        }
+        if live != expected_live {
+            out.viol(
+                "concurrent:shared-runtime:closure-state-released-early",
+                format!(
+                    "{} of {n_closures} values captured by the runtime's closures were released while the runtime is alive ({} compiles on {n_threads} threads)",
+                    n_closures - live.len().min(n_closures),
+                    load(&stats.compiles)
+                ),
+                detail(&rep),
+            );
+            std::mem::forget(rt);
+            return out;
+        }
+        let r = catch(move || drop(rt));
+        if let Err(p) = r {
+            out.viol(format!("concurrent:shared-runtime:drop-runtime-{}", panic_sig(&p)), p, J::Null);
+            return out;
+        }
+        let rep = host::ledger_report();
+        if let Some(a) = rep.alarms.first() {
+            out.viol(format!("concurrent:shared-runtime:ledger-{}", a.kind), format!("{} {} when the runtime was dropped", a.kind, a.info), detail(&rep));
+        } else if !rep.live.is_empty() || rep.drops != n_closures as u64 {
+            out.viol(
+                "concurrent:shared-runtime:closure-state-leaked",
+                format!(
+                    "after the runtime and everything compiled from it ({} packages on {n_threads} threads) was dropped, {} of {n_closures} values captured by its closures are still live ({} drops)",
+                    load(&stats.compiles),
+                    rep.live.len(),
+                    rep.drops
+                ),
+                detail(&rep),
+            );
+        }
+        out
+    }
+}
+
 impl Family for Concurrent {
     fn n_cases(&self, args: &Args) -> u64 {
         if args.thorough() { 6_000 } else { 400 }
@@ -245,6 +738,9 @@ impl Family for Concurrent {
         if k % 8 == 7 {
             return Some(J::obj().set("profile", "shared-lists").set("source", SHARED_SRC));
         }
+        if k % 8 == 6 {
+            return Some(J::obj().set("profile", "shared-runtime").set("sig_hint", "concurrent:shared-runtime"));
+        }
         let (_, _, src, name) = gen_program(rng);
         Some(J::obj().set("profile", name).set("source", src))
     }
@@ -252,6 +748,9 @@ impl Family for Concurrent {
     fn run(&mut self, k: u64, rng: &mut Rng, args: &Args) -> CaseOut {
         if k % 8 == 7 {
             return self.shared_lists(rng, args);
+        }
+        if k % 8 == 6 {
+            return self.shared_runtime(rng, args);
         }
         let mut out = CaseOut::default();
         let (prog, tags, src, profile) = gen_program(rng);
@@ -308,7 +807,7 @@ impl Family for Concurrent {
         }
         // single-threaded reference
         host::ledger_reset();
-        let reference: Vec<(String, Vec<String>)> = inputs.iter().map(|i| run_once(&f, i)).collect();
+        let reference: Vec<(String, Vec<String>)> = inputs.iter().map(|i| run_once(&|| f.call(), i)).collect();
         let rep = host::ledger_report();
         if !rep.alarms.is_empty() || !rep.live.is_empty() {
             // ownership problems of the program itself are C03's business
@@ -323,6 +822,18 @@ impl Family for Concurrent {
         let with_compilers = rng.chance(1, 2);
         out.tags.push(format!("threads:{n_threads}"));
         out.tags.push(format!("background-compile:{with_compilers}"));
+        let via = match rng.below(4) {
+            0 => Via::SharedHandle,
+            1 => Via::OwnClone,
+            _ => Via::IntoFunc,
+        };
+        // threads that own what they call do not need the package or the original handle:
+        // the main thread drops both while the calls are running
+        let drop_owners = via != Via::SharedHandle;
+        let drop_package = drop_owners || rng.bool();
+        out.tags.push(format!("call-via:{via:?}"));
+        out.tags.push(format!("package-dropped-during-calls:{drop_package}"));
+        out.tags.push(format!("original-handle-dropped-during-calls:{drop_owners}"));
 
         host::ledger_reset();
         let stop = Arc::new(AtomicBool::new(false));
@@ -391,8 +902,11 @@ impl Family for Concurrent {
         }
 
         let mut ths = Vec::new();
+        let ready = Arc::new(std::sync::Barrier::new(n_threads + 1));
         for t in 0..n_threads {
-            let f = f.clone();
+            let shared = (via == Via::SharedHandle).then(|| f.clone());
+            let own = (via != Via::SharedHandle).then(|| clone_main(&f));
+            let ready = ready.clone();
             let inputs = inputs.clone();
             let reference = reference.clone();
             let mism = mismatches.clone();
@@ -403,14 +917,20 @@ impl Family for Concurrent {
             let want_compiled: u64 = if with_compilers { 8 } else { 0 };
             ths.push(std::thread::spawn(move || {
                 let mut r = Rng::new(seed);
-                // every thread also works on its own clone of the handle half of the time
+                let f: Box<dyn Fn() -> V> = match (shared, own) {
+                    (Some(f), _) => Box::new(move || f.call()),
+                    (None, Some(own)) if via == Via::OwnClone => Box::new(move || own.call()),
+                    (None, Some(own)) => into_caller(own),
+                    (None, None) => unreachable!(),
+                };
+                ready.wait();
                 let mut c = 0usize;
                 // keep calling until the background threads have compiled (and the
                 // dropper has called and dropped) a few packages
                 while c < calls || (want_compiled > 0 && compiled3.load(Ordering::Relaxed) < want_compiled && c < calls * 200) {
                     c += 1;
                     let i = r.usize(inputs.len());
-                    let (v, log) = run_once(&f, &inputs[i]);
+                    let (v, log) = run_once(&*f, &inputs[i]);
                     total_calls.fetch_add(1, Ordering::Relaxed);
                     total_events.fetch_add(log.len() as u64, Ordering::Relaxed);
                     let (ev, elog) = &reference[i];
@@ -440,6 +960,18 @@ impl Family for Concurrent {
                     }
                 }
             }));
+        }
+        // every thread has what it calls through; the calls start now
+        ready.wait();
+        if drop_package {
+            for _ in 0..rng.below(3) {
+                std::thread::yield_now();
+            }
+            drop(pkg);
+        }
+        if drop_owners {
+            // the worker threads' clones / closures are the only owners from here on
+            drop(f);
         }
         let mut panicked = false;
         for t in ths {
